@@ -635,11 +635,9 @@ Section Track.
     rewrite Hhead. destruct (key_i (k, r)); reflexivity.
   Qed.
 
-  Hypothesis Hd : 0 <= d < two64.
-
-  Lemma is_due_tracked last r : 0 <= last <= d -> is_due last ((d, i), r) = (last =? d).
+  Lemma is_due_tracked last r : 0 <= d < two64 -> 0 <= last <= d -> is_due last ((d, i), r) = (last =? d).
   Proof.
-    intros Hl. unfold is_due. simpl. rewrite Z.mod_small by (unfold two64 in *; lia).
+    intros Hd Hl. unfold is_due. simpl. rewrite Z.mod_small by (unfold two64 in *; lia).
     apply Z.eqb_sym.
   Qed.
 
@@ -797,12 +795,12 @@ Section Track.
       + intros k r Hin. apply Hk. apply in_filter_queue in Hin. exact Hin.
   Qed.
 
-  Lemma R_step used s ph st :
+  Lemma R_step used s ph st : 0 <= d < two64 ->
     Base used s -> R used ph s -> sane used [st] -> (q_oracle r0 = true -> ctx_unused [st]) ->
     R (used_step used st) (spec_step s ph st) (step_state sha s st)
     /\ filter is_i (step_events sha s st) = new_events ph (spec_step s ph st).
   Proof.
-    intros Hb HR Hs Hc.
+    intros Hd Hb HR Hs Hc.
     assert (Hk : forall k r, In (k, r) (queue s) -> snd k = req_id r).
     { intros k r Hin. apply (b_q _ _ Hb k r Hin). }
     unfold step_state, step_events, used_step.
@@ -854,7 +852,7 @@ Section Track.
       destruct ph as [| |ev|]; cbn [spec_step R] in HR |- *.
       + (* Pending *)
         destruct HR as (H1 & H2 & H3 & H4 & H5 & H6).
-        assert (Hdue0 : is_due (height s) ((d, i), r0) = (height s =? d)) by (apply is_due_tracked; lia).
+        assert (Hdue0 : is_due (height s) ((d, i), r0) = (height s =? d)) by (apply is_due_tracked; [exact Hd|lia]).
         destruct (Z.eqb_spec (height s) d) as [Heqd|Hned].
         * (* the block that follows height + interval *)
           assert (Hfd : filter (is_due (height s)) (filter key_i (queue s)) = [((d, i), r0)]).
@@ -1002,17 +1000,17 @@ Section Track.
     destruct st; simpl; rewrite ?IH; tauto.
   Qed.
 
-  Lemma track_run steps : forall used s ph,
+  Lemma track_run : 0 <= d < two64 -> forall steps used s ph,
     Base used s -> R used ph s -> sane used steps -> (q_oracle r0 = true -> ctx_unused steps) ->
     R (used_after used steps) (spec_run s ph steps) (run sha s steps)
     /\ filter is_i (events sha s steps) = new_events ph (spec_run s ph steps).
   Proof.
-    induction steps as [|st steps IH]; intros used s ph Hb HR Hs Hc.
+    intros Hd. induction steps as [|st steps IH]; intros used s ph Hb HR Hs Hc.
     - simpl. split; [exact HR|]. destruct ph; reflexivity.
     - apply sane_cons in Hs. destruct Hs as [Hs1 Hs2].
       assert (Hc1 : q_oracle r0 = true -> ctx_unused [st]) by (intros Ho; apply (ctx_unused_cons st steps); auto).
       assert (Hc2 : q_oracle r0 = true -> ctx_unused steps) by (intros Ho; apply (ctx_unused_cons st steps); auto).
-      destruct (R_step used s ph st Hb HR Hs1 Hc1) as [HR1 He1].
+      destruct (R_step used s ph st Hd Hb HR Hs1 Hc1) as [HR1 He1].
       destruct (IH _ _ _ (Base_step used s st Hb Hs1) HR1 Hs2 Hc2) as [HR2 He2].
       replace (used_after used (st :: steps)) with (used_after (used_step used st) steps)
         by (destruct st; reflexivity).
@@ -1023,7 +1021,7 @@ Section Track.
   Qed.
 
   (** *** where tracking starts: the state right after the request was accepted *)
-  Lemma track_start used s c' n orc capok txh svc :
+  Lemma track_start : 0 <= d < two64 -> forall used s c' n orc capok txh svc,
     Base used s -> sane used [Req c' n orc capok txh svc] -> req_ok c' capok orc svc = true ->
     r0 = new_req s c' txh orc svc -> 0 <= n -> d = height s + n ->
     (q_oracle r0 = true ->
@@ -1031,7 +1029,7 @@ Section Track.
        /\ (forall y r, In (y, r) (oracle s) -> y <> ctx)) ->
     R (c' :: used) Pending (enq s n r0).
   Proof.
-    intros Hb Hs Hok Hr0 Hn Hdd Hfresh. simpl in Hs. rewrite Hok in Hs. destruct Hs as [Hnew _].
+    intros Hd used s c' n orc capok txh svc Hb Hs Hok Hr0 Hn Hdd Hfresh. simpl in Hs. rewrite Hok in Hs. destruct Hs as [Hnew _].
     assert (Hh : h = height s) by (unfold h; rewrite Hr0; reflexivity).
     assert (Hcc : c = c') by (unfold c; rewrite Hr0; reflexivity).
     assert (Hi : i = (height s, c')) by (unfold i; rewrite Hr0; reflexivity).
@@ -1140,3 +1138,164 @@ Section Track.
         rewrite Hhs. apply (IH _ _ Hs2 Hle).
   Qed.
 End Track.
+
+(** ** histories from the initial state *)
+Section Top.
+  Variable sha : hin -> Z.
+
+  Lemma run_app a : forall s b, run sha s (a ++ b) = run sha (run sha s a) b.
+  Proof. induction a as [|st a IH]; intros s b; simpl; [reflexivity|apply IH]. Qed.
+
+  Lemma events_app a : forall s b,
+    events sha s (a ++ b) = events sha s a ++ events sha (run sha s a) b.
+  Proof.
+    induction a as [|st a IH]; intros s b; simpl; [reflexivity|].
+    rewrite IH, app_assoc. reflexivity.
+  Qed.
+
+  Lemma used_after_app a : forall used b, used_after used (a ++ b) = used_after (used_after used a) b.
+  Proof.
+    induction a as [|st a IH]; intros used b; [reflexivity|].
+    destruct st; simpl; apply IH.
+  Qed.
+
+  Lemma spec_run_app r0 d a : forall s ph b,
+    spec_run sha r0 d s ph (a ++ b) = spec_run sha r0 d (run sha s a) (spec_run sha r0 d s ph a) b.
+  Proof. induction a as [|st a IH]; intros s ph b; simpl; [reflexivity|apply IH]. Qed.
+
+  Lemma step_height used s st : Base used s -> sane used [st] ->
+    height s <= height (step_state sha s st).
+  Proof.
+    intros Hb Hs. unfold step_state. destruct st as [c n orc capok txh svc|t a started|cs].
+    - rewrite exec_req. destruct (req_ok c capok orc svc); simpl; lia.
+    - destruct Hs as [Htz _]. unfold exec_step. rewrite (begin_block_nz sha s t a started Htz). simpl. lia.
+    - unfold exec_step. rewrite (exec_calls_nz sha cs s (b_t _ _ Hb)). simpl.
+      destruct (calls_state_sub sha cs s) as (Hh & _). lia.
+  Qed.
+
+  Lemma run_height steps : forall used s, Base used s -> sane used steps ->
+    height s <= height (run sha s steps).
+  Proof.
+    induction steps as [|st steps IH]; intros used s Hb Hs; simpl; [lia|].
+    apply sane_cons in Hs. destruct Hs as [Hs1 Hs2].
+    pose proof (step_height used s st Hb Hs1).
+    pose proof (IH _ _ (Base_step sha used s st Hb Hs1) Hs2). lia.
+  Qed.
+
+  Lemma calls_events_src cs : forall s ev, In ev (calls_events sha s cs) ->
+    exists x r, In (x, r) (oracle s) /\ e_rid ev = req_id r.
+  Proof.
+    induction cs as [|cl cs IH]; intros s ev; simpl; [tauto|].
+    rewrite in_app_iff. intros [Hin|Hin].
+    - destruct cl as [x dta|x ex]; simpl in Hin; try contradiction.
+      destruct dta; try contradiction.
+      destruct (get x (oracle s)) as [r|] eqn:Hg; [|contradiction].
+      destruct Hin as [<-|[]]. exists x, r. split; [apply get_In; exact Hg|reflexivity].
+    - destruct (IH _ _ Hin) as (x & r & Hx & Hid). exists x, r. split; [|exact Hid].
+      apply call_oracle_sub with sha cl. exact Hx.
+  Qed.
+
+  (** a fulfilment is always of a request made in an earlier block *)
+  Lemma step_events_old used s st ev : Base used s -> sane used [st] ->
+    In ev (step_events sha s st) -> fst (e_rid ev) < height (step_state sha s st).
+  Proof.
+    intros Hb Hs. unfold step_events, step_state.
+    destruct st as [c n orc capok txh svc|t a started|cs].
+    - rewrite exec_req. destruct (req_ok c capok orc svc); simpl; tauto.
+    - destruct Hs as [Htz _]. unfold exec_step. rewrite (begin_block_nz sha s t a started Htz). simpl.
+      intros Hin. apply in_flat_map in Hin. destruct Hin as ([k r] & He & Hev).
+      unfold fev in Hev. simpl in Hev. destruct (q_oracle r); [contradiction|].
+      destruct Hev as [<-|[]]. simpl. apply in_filter_queue in He.
+      destruct (b_q _ _ Hb k r He) as (_ & Hle & _). lia.
+    - unfold exec_step. rewrite (exec_calls_nz sha cs s (b_t _ _ Hb)). simpl.
+      intros Hin. destruct (calls_events_src cs s ev Hin) as (x & r & Hx & Hid).
+      destruct (calls_state_sub sha cs s) as (Hh & _). rewrite Hh, Hid. simpl.
+      apply (b_o _ _ Hb x r Hx).
+  Qed.
+
+  Lemma events_old steps : forall used s ev, Base used s -> sane used steps ->
+    In ev (events sha s steps) -> fst (e_rid ev) < height (run sha s steps).
+  Proof.
+    induction steps as [|st steps IH]; intros used s ev Hb Hs; simpl; [tauto|].
+    apply sane_cons in Hs. destruct Hs as [Hs1 Hs2].
+    pose proof (Base_step sha used s st Hb Hs1) as Hb1.
+    rewrite in_app_iff. intros [Hin|Hin].
+    - pose proof (step_events_old used s st ev Hb Hs1 Hin).
+      pose proof (run_height steps _ _ Hb1 Hs2). lia.
+    - apply (IH _ _ _ Hb1 Hs2 Hin).
+  Qed.
+
+  (** every fulfilment in every history: its value is [rand_val] of its own block's time and
+      app hash, its requester and its seed *)
+  Lemma events_value steps : forall used s ev, Base used s -> sane used steps ->
+    In ev (events sha s steps) ->
+    e_time ev <> 0 /\ e_val ev = rand_val sha (e_time ev) (e_app ev) (snd (e_rid ev)) (e_seed ev).
+  Proof.
+    induction steps as [|st steps IH]; intros used s ev Hb Hs; simpl; [tauto|].
+    apply sane_cons in Hs. destruct Hs as [Hs1 Hs2].
+    rewrite in_app_iff. intros [Hin|Hin].
+    - destruct (step_events_ok sha used s st ev Hb Hs1 Hin) as [(Hb' & Ht' & Ha' & Hv) Hnz].
+      rewrite Ht', Ha'. split; [exact Hnz|exact Hv].
+    - apply (IH _ _ _ (Base_step sha used s st Hb Hs1) Hs2 Hin).
+  Qed.
+
+  (** *** the life of an arbitrary request in an arbitrary history *)
+  Section Life.
+    Variables (pre post : list step) (c n : Z) (orc capok : bool) (txh : Z) (svc : option Z).
+    Let s := run sha init pre.
+    Let r0 := new_req s c txh orc svc.
+    Let d := height s + n.
+    Let s1 := enq s n r0.
+    Let steps := pre ++ Req c n orc capok txh svc :: post.
+
+    Hypothesis Hsane : sane [] steps.
+    Hypothesis Hok : req_ok c capok orc svc = true.
+    Hypothesis Hn : 0 <= n.
+    Hypothesis Hd : d < two64.
+    Hypothesis Hctx : orc = true -> ctx_unused r0 (pre ++ post).
+
+    Lemma life_lemma :
+      let ph := spec_run sha r0 d s1 Pending post in
+      R r0 d (used_after [] steps) ph (run sha init steps)
+      /\ filter (is_i r0) (events sha init steps) = new_events Pending ph.
+    Proof.
+      intros ph.
+      unfold steps in Hsane. apply sane_app in Hsane. destruct Hsane as [Hs_pre Hs_rest].
+      apply sane_cons in Hs_rest. destruct Hs_rest as [Hs_req Hs_post].
+      set (used1 := used_after [] pre) in *.
+      assert (Hu : used_step used1 (Req c n orc capok txh svc) = c :: used1).
+      { unfold used_step. simpl. rewrite Hok. reflexivity. }
+      rewrite Hu in Hs_post.
+      pose proof (Base_run sha pre [] init Base_init Hs_pre) as Hb. fold s in Hb. fold used1 in Hb.
+      pose proof (b_h _ _ Hb) as Hh1.
+      assert (Hdr : 0 <= d < two64) by (unfold d; lia).
+      assert (Hor : q_oracle r0 = orc) by reflexivity.
+      assert (Hcu : q_oracle r0 = true -> ctx_unused r0 pre /\ ctx_unused r0 post).
+      { intros Ho. rewrite Hor in Ho. apply (proj1 (ctx_unused_app r0 pre post)). apply Hctx. exact Ho. }
+      assert (HR1 : R r0 d (c :: used1) Pending s1).
+      { apply (track_start r0 d Hdr used1 s c n orc capok txh svc Hb Hs_req Hok eq_refl Hn eq_refl).
+        intros Ho. destruct (Hcu Ho) as [Hcp _].
+        assert (Hcf : CF r0 s).
+        { apply (CF_run sha r0 pre [] init Base_init Hs_pre Hcp).
+          split; intros ? ? []. }
+        exact Hcf. }
+      assert (Hb1 : Base (c :: used1) s1).
+      { pose proof (Base_step sha used1 s _ Hb Hs_req) as Hb1. rewrite Hu in Hb1.
+        unfold step_state in Hb1. rewrite exec_req, Hok in Hb1. exact Hb1. }
+      destruct (track_run sha r0 d Hdr post (c :: used1) s1 Pending Hb1 HR1 Hs_post
+                          (fun Ho => proj2 (Hcu Ho))) as [HR He].
+      assert (Hrun : run sha init steps = run sha s1 post).
+      { unfold steps. rewrite run_app. fold s. simpl. unfold step_state. rewrite exec_req, Hok. reflexivity. }
+      assert (Hused : used_after [] steps = used_after (c :: used1) post).
+      { unfold steps. rewrite used_after_app. fold used1. simpl. rewrite Hok. reflexivity. }
+      rewrite Hrun, Hused. split; [exact HR|].
+      unfold steps. rewrite events_app. fold s. cbn [events].
+      unfold step_events at 1, step_state. rewrite exec_req, Hok. cbn [fst snd app].
+      change (enq s n (new_req s c txh orc svc)) with s1.
+      rewrite filter_app, He.
+      rewrite (filter_nil_all (is_i r0) (events sha init pre)); [reflexivity|].
+      intros ev Hin. pose proof (events_old pre [] init ev Base_init Hs_pre Hin) as Hlt. fold s in Hlt.
+      unfold is_i. apply eqb_false_iff. intros Heq. rewrite Heq in Hlt. simpl in Hlt. lia.
+    Qed.
+  End Life.
+End Top.
